@@ -2,6 +2,7 @@ package ergo
 
 import (
 	"path/filepath"
+	"strconv"
 	"strings"
 )
 
@@ -121,4 +122,216 @@ func zzC20_Attach() {
 	if t != nil && len(t.Results) > 0 {
 		zzAssert(t.Results[0].Summary == strings.TrimSpace(summary), "C20/attach: the summary is recorded (trimmed)")
 	}
+}
+
+// ---------------------------------------------------------------- byte level: confinement
+//
+// The lexical rules of validateResultPath, executed on byte strings. filepath.Clean is library
+// code whose lazybuf implementation the engine's memory model could not carry (see DESIGN); it is
+// replaced by zzCleanModel, a port with static memory, which the native replay compares with the
+// library on every replayed input and zzCleanModelSelfTest compares exhaustively (natively).
+
+const zzCleanMax = 10
+const zzMaxComps = 5
+
+func zzCleanModel(p string) string {
+	n := len(p)
+	if n == 0 {
+		return "."
+	}
+	rooted := p[0] == '/'
+	var sstart, send [zzMaxComps]int
+	sp, up := 0, 0
+	clen, cstart := 0, 0
+	alldots := true
+	for k := 0; k <= n; k++ {
+		if k < n && p[k] != '/' {
+			if clen == 0 {
+				cstart = k
+			}
+			if p[k] != '.' {
+				alldots = false
+			}
+			clen++
+			continue
+		}
+		if clen > 0 {
+			if alldots && clen == 1 {
+				// "." : skipped
+			} else if alldots && clen == 2 {
+				if sp > 0 {
+					sp--
+				} else if !rooted {
+					up++
+				}
+			} else if sp < zzMaxComps {
+				sstart[sp], send[sp] = cstart, k
+				sp++
+			}
+		}
+		clen, alldots = 0, true
+	}
+	var out [zzCleanMax + 2]byte
+	w := 0
+	if rooted {
+		out[0] = '/'
+		w = 1
+	}
+	wrote := false
+	for u := 0; u < up; u++ {
+		if wrote {
+			out[w] = '/'
+			w++
+		}
+		out[w] = '.'
+		w++
+		out[w] = '.'
+		w++
+		wrote = true
+	}
+	for k := 0; k < n; k++ {
+		in, start := false, false
+		for s := 0; s < zzMaxComps; s++ {
+			if s < sp && sstart[s] <= k && k < send[s] {
+				in = true
+				if sstart[s] == k {
+					start = true
+				}
+			}
+		}
+		if in {
+			if start && wrote {
+				out[w] = '/'
+				w++
+			}
+			out[w] = p[k]
+			w++
+			wrote = true
+		}
+	}
+	if w == 0 {
+		return "."
+	}
+	return string(out[:w])
+}
+
+// zzPathOracle: where a relative path leads, read off the RAW text component by component (an
+// independent description: no cleaning, no string building). escapes: some prefix of the path
+// climbs above the start directory (lexically such a path can never come back below it);
+// inErgo: the path ends at or below <start>/.ergo; top: it ends at the start directory itself.
+func zzPathOracle(p string) (escapes, inErgo, top bool) {
+	n := len(p)
+	depth := 0
+	firstErgo := false // the component at depth 1 is ".ergo"
+	clen := 0
+	alldots := true
+	isErgo := true // the current component spells ".ergo" so far
+	for k := 0; k <= n; k++ {
+		if k < n && p[k] != '/' {
+			if p[k] != '.' {
+				alldots = false
+			}
+			want := byte(0)
+			switch clen {
+			case 0:
+				want = '.'
+			case 1:
+				want = 'e'
+			case 2:
+				want = 'r'
+			case 3:
+				want = 'g'
+			case 4:
+				want = 'o'
+			}
+			if clen > 4 || p[k] != want {
+				isErgo = false
+			}
+			clen++
+			continue
+		}
+		if clen > 0 {
+			if alldots && clen == 1 {
+			} else if alldots && clen == 2 {
+				depth--
+				if depth < 0 {
+					escapes = true
+				}
+			} else {
+				if depth == 0 {
+					firstErgo = isErgo && clen == 5
+				}
+				depth++
+			}
+		}
+		clen, alldots, isErgo = 0, true, true
+	}
+	return escapes, !escapes && depth >= 1 && firstErgo, !escapes && depth == 0
+}
+
+func zzC20PathConfined(max int) {
+	rel := zzBytes("rel", max)
+	for i := 0; i < len(rel); i++ {
+		c := rel[i]
+		zzAssume(c == '/' || c == '.' || c == 'e' || c == 'r' || c == 'g' || c == 'o' || c == 'a')
+	}
+	zzStatAny()
+	got, err := validateResultPath("/p", rel)
+	if zzIsNative() {
+		zzAssert(zzCleanModel(rel) == filepath.Clean(rel), "C20/model: zzCleanModel agrees with filepath.Clean on this input")
+	}
+	if err != nil {
+		zzReach("rejected")
+		return
+	}
+	escapes, inErgo, top := zzPathOracle(rel)
+	// the project root itself is a directory (the only fact about the file system used here)
+	_, missing, isDir := zzLastStat()
+	zzAssume(!top || missing || isDir)
+	zzReach("accepted")
+	zzAssert(len(rel) == 0 || rel[0] != '/', "C20/bytes: an accepted path is relative")
+	zzAssert(!escapes, "C20/bytes: an accepted path never leaves the project root")
+	zzAssert(!inErgo, "C20/bytes: an accepted path never points at or into .ergo")
+	zzAssert(!top, "C20/bytes: an accepted path names something below the root, not the root itself")
+	e2, i2, t2 := zzPathOracle(got)
+	zzAssert(!e2 && !i2 && !t2, "C20/bytes: the recorded (cleaned) path is itself confined")
+}
+
+func zzC20_PathConfined_L5() { zzC20PathConfined(5) }
+func zzC20_PathConfined_L7() { zzC20PathConfined(7) }
+func zzC20_PathConfined_L9() { zzC20PathConfined(9) }
+
+// zzC20_CleanModelSelfTest (native only, run by the check after the symbolic units): the static-
+// memory port agrees with path/filepath.Clean on EVERY string of at most 7 bytes over the unit's
+// alphabet (about 960 000 strings) and on the length-8/9 strings reached by padding a few seeds.
+func zzC20_CleanModelSelfTest() {
+	alpha := []byte{'/', '.', 'e', 'r', 'g', 'o', 'a'}
+	buf := make([]byte, 0, 9)
+	bad := 0
+	var rec func(d int)
+	rec = func(d int) {
+		s := string(buf)
+		if zzCleanModel(s) != filepath.Clean(s) {
+			bad++
+			if bad < 5 {
+				zzNote("clean model differs on " + strconv.Quote(s) + ": " + strconv.Quote(zzCleanModel(s)) + " vs " + strconv.Quote(filepath.Clean(s)))
+			}
+		}
+		if d == 7 {
+			return
+		}
+		for _, c := range alpha {
+			buf = append(buf, c)
+			rec(d + 1)
+			buf = buf[:len(buf)-1]
+		}
+	}
+	rec(0)
+	for _, s := range []string{"./.ergo/a", "a/../../b", "../a/b/..", "/a/../../b", "a//b/./c", ".ergo/../a", "a/b/c/d/e", "./././.a", "..a/..b/.", "a/.../b/.."} {
+		if zzCleanModel(s) != filepath.Clean(s) {
+			bad++
+			zzNote("clean model differs on " + strconv.Quote(s))
+		}
+	}
+	zzAssert(bad == 0, "C20/model: zzCleanModel == filepath.Clean on every enumerated string")
 }
